@@ -543,7 +543,8 @@ def cache_cells(quick):
                     picks += [(CACHE_OPS[2 + (fi * 3 + ai) % 6], partners[(fi + ai + 3) % len(partners)])]
                 bs = [[[], [2]][(fi + ai) % 2]]
             else:
-                picks = [(oo, pk) for oo in CACHE_OPS for pk in partners]
+                picks = [(oo, partners[(fi + ai + oi + j) % len(partners)]) for oi, oo in enumerate(CACHE_OPS) for j in range(3)] \
+                    + [(("mul", o), pk) for o in (0, 1) for pk in partners]
                 bs = [[], [2]]
             for (op, order), pk in dict.fromkeys(picks):
                 for b in bs:
@@ -780,6 +781,17 @@ def cause_of(k):
     """root cause of a failing step, from its structural attributes only (None: not a recognised cell)"""
     op, a, b, fail, exc, bc = k.get("op"), k.get("a"), k.get("b"), k.get("fail"), k.get("exc"), k.get("bcast")
     cul = k.get("culprit") or a
+    if op == "mul" and fail == "value" and ((a in DIAG_RT and k.get("chol_upper_b")) or (b in DIAG_RT and k.get("chol_upper_a"))):
+        # Diag-family _mul_matrix reads the other operand's _diagonal(); CholLinearOperator(upper=True)._diagonal() is the
+        # diagonal of R R^T (C03-chol-upper-orientation), also through every container whose _diagonal delegates to it
+        return "chol-upper-diagonal"
+    if op in ("squeeze", "prod") and fail == "value" and k.get("chol_upper_a"):
+        # squeeze and the base _prod_batch go through __getitem__; the _getitem / _get_indices inherited from RootLinearOperator
+        # read R R^T as well (and _prod_batch multiplies the slices through their root decompositions: C06-chol-upper)
+        return "chol-upper-diagonal"
+    if op in ("add", "sub") and fail == "value" and b == "Chol" and k.get("chol_upper_b"):
+        # LinearOperator.__add__: `isinstance(other, RootLinearOperator) -> self.add_low_rank(other.root)` adds R R^T
+        return "add-chol-upper-as-root"
     if exc == "scalar-has-no-shape" and "Zero" in (a, b):
         return "zero-mul-python-scalar"
     if op in ("add", "sub") and a == "Zero" and fail == "shape" and bc:
@@ -911,6 +923,11 @@ def fail_key(j):
         key["zero_multibatch_inside"] = any(
             x["cls"] == "Zero" and len(x["shape"]) >= 4
             for q in ops.nodes(n) if q["p"] == "leaf" for x in g.nodes(q["e"]))
+    if n["p"] in ("mul", "add", "sub", "squeeze", "prod"):
+        def upper_inside(q):
+            return isinstance(q, dict) and any(x["cls"] == "Chol" and x.get("upper") for r in ops.nodes(q) if r["p"] == "leaf"
+                                               for x in g.nodes(r["e"]))
+        key["chol_upper_a"], key["chol_upper_b"] = upper_inside(n["a"]), upper_inside(n.get("b"))
     key["cause"] = cause_of(key)
     return key
 
